@@ -4,6 +4,7 @@ import (
 	"bytes"
 	"crypto"
 	"crypto/sha512"
+	"encoding/hex"
 	"fmt"
 
 	"golang.org/x/crypto/sha3"
@@ -160,7 +161,7 @@ func newCShared() *cShared {
 	return sh
 }
 
-const cNumOps = 25
+const cNumOps = 26
 
 var cOpNames = [cNumOps]string{"ed.Sign", "ed.Verify", "ed.VerifyExpanded(shared key)", "cache.Verifier.Verify(shared)", "ed.Batch(shared expanded keys)",
 	"x25519.X25519(Basepoint)", "sr.Sign+Verify(shared ctx,keypair)", "ecvrf.Prove+Verify", "h2c.XOF(shared shake)", "ed.Sign(hedged,selfverify)",
@@ -168,7 +169,8 @@ var cOpNames = [cNumOps]string{"ed.Sign", "ed.Verify", "ed.VerifyExpanded(shared
 	"merlin.Clone(shared origin)", "sr.Batch(shared keys)", "x25519.DH(shared keys)", "curve.MultiscalarMulVartime(package tables)", "h2c.XMD+ristretto",
 	"ed.Sign(hedged, entropy reader fails)", "curve.MultiscalarMulVartime(>=190 terms: Pippenger)", "ed.VerifyBatchOnly(>=95 entries: Pippenger)",
 	"default entropy (nil readers): every entry point that falls back to the system source",
-	"decoders over shared wire encodings (sr25519, curve, scalar, x25519, ecvrf)"}
+	"decoders over shared wire encodings (sr25519, curve, scalar, x25519, ecvrf)",
+	"values returned by accessors of shared objects, used in place"}
 
 func scal(i int) *scalar.Scalar {
 	d := sha512.Sum512([]byte{'s', byte(i), byte(i >> 8)})
@@ -412,6 +414,32 @@ func (sh *cShared) op(kind, i int) []byte {
 		return out
 	case 24:
 		return sh.decodeShared(i)
+	case 25:
+		// what an accessor returns is the caller's to overwrite: p := tbl.Basepoint(); p.Mul(p, s)
+		p := curve.ED25519_BASEPOINT_TABLE.Basepoint()
+		p.Mul(p, scal(i))
+		q := sh.tbl.Basepoint()
+		q.Add(q, p)
+		rp := curve.RISTRETTO_BASEPOINT_TABLE.Basepoint()
+		rp.Mul(rp, scal(i+1))
+		e := sh.ep.Point()
+		e.Neg(e)
+		er := sh.erp.Point()
+		er.Add(er, rp)
+		xp := sh.xpriv.Public()
+		xp2 := *xp
+		for j := range xp {
+			xp[j] ^= 0x5a // a copy of the public key, or the key pair's own?
+		}
+		out := append(append(append(append(edBytes(p), edBytes(q)...), risBytes(rp)...), edBytes(e)...), risBytes(er)...)
+		// ... and the next caller of the same accessors gets the real thing
+		out = append(out, edBytes(curve.ED25519_BASEPOINT_TABLE.Basepoint())...)
+		out = append(out, risBytes(curve.RISTRETTO_BASEPOINT_TABLE.Basepoint())...)
+		out = append(out, edBytes(sh.tbl.Basepoint())...)
+		out = append(out, edBytes(sh.ep.Point())...)
+		out = append(out, risBytes(sh.erp.Point())...)
+		out = append(out, bb(*sh.xpriv.Public() == xp2))
+		return out
 	case 20:
 		// a fault in one call must not poison later calls: the reader fails after i%32 bytes
 		s, err := sh.priv[k].Sign(&failingReader{left: i % 32}, sh.msgs[k], &ed25519.Options{AddedRandomness: true, Context: "ctx"})
@@ -604,6 +632,33 @@ func (sh *cShared) optsVer0() *ed25519.Options {
 	return &ed25519.Options{Context: "shared-ctx", Verify: sh.vopts}
 }
 
+// cPackageLevelIntact compares the exported package-level points and tables with their definitions:
+// the RFC 8032 base point (y = 4/5, x even), the RFC 9496 generator, the identity as first torsion point.
+func cPackageLevelIntact() string {
+	edB, _ := hex.DecodeString("5866666666666666666666666666666666666666666666666666666666666666")
+	risB, _ := hex.DecodeString("e2f2ae0a6abc4e71a884a961c500515f58e30b6aa582dd8db6a65945e08d2d76")
+	switch {
+	case !bytes.Equal(edBytes(curve.ED25519_BASEPOINT_POINT), edB):
+		return "curve.ED25519_BASEPOINT_POINT no longer encodes to the RFC 8032 base point"
+	case !bytes.Equal(edBytes(curve.ED25519_BASEPOINT_TABLE.Basepoint()), edB):
+		return "curve.ED25519_BASEPOINT_TABLE.Basepoint() is no longer the RFC 8032 base point"
+	case !bytes.Equal(risBytes(curve.RISTRETTO_BASEPOINT_POINT), risB):
+		return "curve.RISTRETTO_BASEPOINT_POINT no longer encodes to the RFC 9496 generator"
+	case !bytes.Equal(risBytes(curve.RISTRETTO_BASEPOINT_TABLE.Basepoint()), risB):
+		return "curve.RISTRETTO_BASEPOINT_TABLE.Basepoint() is no longer the RFC 9496 generator"
+	case !curve.EIGHT_TORSION[0].IsIdentity() || curve.EIGHT_TORSION[1].IsIdentity():
+		return "curve.EIGHT_TORSION changed"
+	case x25519.Basepoint[0] != 9 || !bytes.Equal(x25519.Basepoint[1:], make([]byte, 31)):
+		return "x25519.Basepoint is no longer 9"
+	}
+	var one curve.EdwardsPoint
+	one.MulBasepoint(curve.ED25519_BASEPOINT_TABLE, scalar.NewFromUint64(1))
+	if !bytes.Equal(edBytes(&one), edB) {
+		return "[1]B through curve.ED25519_BASEPOINT_TABLE is no longer the base point"
+	}
+	return ""
+}
+
 type failingReader struct{ left int }
 
 func (f *failingReader) Read(p []byte) (int, error) {
@@ -717,6 +772,10 @@ func runC18C(e *Env, r *core.Run) {
 	tw.Read(b)
 	if !bytes.Equal(a, b) {
 		r.Fail("shared-object-mutated", "shake-prototype", "the caller's SHAKE prototype changed state after being passed to h2c")
+	}
+	// the package-level points and tables are what the RFCs say they are
+	if msg := cPackageLevelIntact(); msg != "" {
+		r.Fail("shared-object-mutated", "package-level-value", "%s", msg)
 	}
 	// and the option structs
 	if *sh.optsSV != *sh.optsSV0() || *sh.optsVer != *sh.optsVer0() || *sh.vopts != *cRef.vopts {
